@@ -31,7 +31,7 @@ ASSUMPTIONS = [
     "effect families with two terms over the same set of variables are not generated",
 ]
 
-CAT_E = ("f", "h")
+CAT_E = ("f", "h", "C(h, Sum)", "S(f)")
 NUM_E = ("x", "z", "scale(x)", "poly(x, 2)")
 GFACTORS = ("g", "s", "C(k)", "k", "C(s)", "C(g)", (":", ("var", "g"), ("var", "s")), ("+", ("var", "g"), ("var", "s")),
             ("/", ("var", "g"), ("var", "s")), (":", ("var", "s"), ("var", "g")))
